@@ -44,6 +44,8 @@ func (o op) String() string {
 		return fmt.Sprintf("write(%s off=%d len=%s)", shortPath(o.path), o.off, lens(o.chunks))
 	case "append":
 		return fmt.Sprintf("append(%s len=%s)", shortPath(o.path), lens(o.chunks))
+	case "trunc":
+		return fmt.Sprintf("trunc(%s len=%s)", shortPath(o.path), lens(o.chunks))
 	case "alt":
 		return fmt.Sprintf("alt(%s len=%s ; %s len=%s)", shortPath(o.path), lens(o.chunks), shortPath(o.path2), lens(o.chunks2))
 	case "readat":
@@ -105,6 +107,7 @@ type gen struct {
 	maxTarget       int  // longest symlink target generated (0 = 4095)
 	maxName         int  // longest name generated (247 while the name-length wrap defect is present, else 255)
 	keepInlineLinks bool // do not Remove symlinks with inline targets (known nil dereference)
+	trunc           bool // OpenFile honours O_TRUNC on this tree (probe): re-opening an existing file with O_TRUNC is part of the histories
 }
 
 func (g *gen) newName(prefix string) string {
@@ -265,6 +268,19 @@ func (g *gen) next() op {
 			n := g.pickLen()
 			if g.budget > 0 && ref.totalBytes()+n > g.budget {
 				n = 1 + r.Intn(int(g.bs))
+			}
+			if g.trunc && r.Chance(25) {
+				// the file is opened again with O_TRUNC (large files preferred: they have several extents, the
+				// largest a tree below the inode) and gets new contents, now and then none at all
+				for k := 0; k < 3; k++ {
+					if q := hx.Pick(r, files); len(ref.lookup(q).data) > len(ref.lookup(p).data) {
+						p = q
+					}
+				}
+				if r.Chance(20) {
+					return op{kind: "trunc", path: p}
+				}
+				return op{kind: "trunc", path: p, chunks: g.chunksOf(n)}
 			}
 			var off int64
 			switch y := r.Intn(100); {
@@ -594,6 +610,28 @@ func (rn *runner) exec(o op) (out outcome) {
 			}
 		} else if f.V04Offset() != int64(len(n.data)) {
 			out.problem = fmt.Sprintf("O_APPEND handle starts at offset %d, file has %d bytes", f.V04Offset(), len(n.data))
+			return
+		}
+		for _, c := range o.chunks {
+			if !rn.writeChunk(f, n, c, &out) {
+				return
+			}
+		}
+	case "trunc":
+		// what CopyFileSystem does for a file the destination already holds: O_CREATE|O_TRUNC|O_RDWR, then the new bytes
+		flag := os.O_RDWR | os.O_TRUNC
+		if len(o.chunks)%2 == 1 {
+			flag |= os.O_CREATE
+		}
+		f := rn.open(o.path, flag, &out)
+		if f == nil {
+			return
+		}
+		defer f.Close()
+		n := ref.lookup(o.path)
+		n.data = nil
+		if f.V04Offset() != 0 || len(f.V04Extents()) != 0 {
+			out.problem = fmt.Sprintf("handle opened with O_TRUNC starts at offset %d with %d extents", f.V04Offset(), len(f.V04Extents()))
 			return
 		}
 		for _, c := range o.chunks {
